@@ -180,13 +180,13 @@ fn nets_body<S: Src>(s: &mut S, kind: u8) {
     core::mem::forget(ex);
     core::mem::forget(e);
 }
-pub fn c14_q_nets_rect<S: Src>(s: &mut S) {
+pub fn c14_x_nets_rect<S: Src>(s: &mut S) {
     nets_body(s, 0)
 }
-pub fn c14_q_nets_poly<S: Src>(s: &mut S) {
+pub fn c14_x_nets_poly<S: Src>(s: &mut S) {
     nets_body(s, 1)
 }
-pub fn c14_q_nets_path<S: Src>(s: &mut S) {
+pub fn c14_x_nets_path<S: Src>(s: &mut S) {
     nets_body(s, 2)
 }
 /// instances: name, target cell, location, reflection, right-angle rotation
@@ -327,9 +327,9 @@ pub fn replay(name: &str, vals: Vec<Vec<u8>>) -> ReplayOut {
 harnesses! { k, "sel_raw_proto.rs";
     #[kani::stub(alloc::fmt::format, fmt_stub)] #[kani::stub(std::sync::Arc::drop_slow, arc_drop_noop)] #[kani::unwind(6)] c14_q_rect;
     #[kani::stub(alloc::fmt::format, fmt_stub)] #[kani::stub(std::sync::Arc::drop_slow, arc_drop_noop)] #[kani::unwind(6)] c14_q_poly_path;
-    #[kani::stub(alloc::fmt::format, fmt_stub)] #[kani::stub(std::sync::Arc::drop_slow, arc_drop_noop)] #[kani::unwind(6)] c14_q_nets_rect;
-    #[kani::stub(alloc::fmt::format, fmt_stub)] #[kani::stub(std::sync::Arc::drop_slow, arc_drop_noop)] #[kani::unwind(6)] c14_q_nets_poly;
-    #[kani::stub(alloc::fmt::format, fmt_stub)] #[kani::stub(std::sync::Arc::drop_slow, arc_drop_noop)] #[kani::unwind(6)] c14_q_nets_path;
+    #[kani::stub(alloc::fmt::format, fmt_stub)] #[kani::stub(std::sync::Arc::drop_slow, arc_drop_noop)] #[kani::unwind(6)] c14_x_nets_rect;
+    #[kani::stub(alloc::fmt::format, fmt_stub)] #[kani::stub(std::sync::Arc::drop_slow, arc_drop_noop)] #[kani::unwind(6)] c14_x_nets_poly;
+    #[kani::stub(alloc::fmt::format, fmt_stub)] #[kani::stub(std::sync::Arc::drop_slow, arc_drop_noop)] #[kani::unwind(6)] c14_x_nets_path;
     #[kani::stub(alloc::fmt::format, fmt_stub)] #[kani::stub(std::sync::Arc::drop_slow, arc_drop_noop)] #[kani::stub(crate::proto::ProtoImporter::import_reference, import_reference_stub)] #[kani::unwind(6)] c14_q_instance;
     #[kani::stub(alloc::fmt::format, fmt_stub)] #[kani::stub(std::sync::Arc::drop_slow, arc_drop_noop)] #[kani::unwind(6)] c14_q_units_text;
     #[kani::stub(alloc::fmt::format, fmt_stub)] #[kani::stub(std::sync::Arc::drop_slow, arc_drop_noop)] #[kani::unwind(6)] c14_q_units_pico;
